@@ -22,6 +22,10 @@ CLAIMED = {
    text="Kernel-checked end to end on the model (C04_main): for all block sizes 4<=bs0<=bs1, every sequence of buffer/wrote/blockout calls in any order and sizes (over-submissions refused), every answer sequence of the envelope search, one end-of-input call and any draining calls: the packets handed out are mids++[last], last carries EOS (the only one) and granule position N = samples accepted, and for every visibility pattern of intermediate granule positions (Ogg paging) the decoder model delivers exactly N samples in total and none from the first packet; N=0 and N smaller than a block included. Plus drain progress (3*bs1 padding always suffices). Encoder and decoder bookkeeping models are replayed call-by-call against the real vorbis_analysis_buffer/wrote/blockout and vorbis_synthesis_blockin (N in {0,1,...,10^6}, all partitions, 24 configurations, 4 paging modes); the predicate Coherent is also evaluated on every real packet trace.",
    note="_ve_envelope_search is an oracle parameter (theorems quantify over all answers). vorbisfile's ov_pcm_total / streaming read totals are checked by the oracle here and modelled under C09/C10. Trusted: Lean kernel, the hand model as far as the call-by-call replay exercises it, harness, extract.py.",
    tech="Lean 4 proof (invariant by induction over API call sequences + induction over packet sequences) + call-by-call differential replay"),
+ "C02": dict(cat="proof", ref="§8 C02",
+   text="The set-up parser model is proof-carrying: for every byte string, an accepted set-up provably satisfies SetupWF (every book/floor/residue/mapping/mode index below its count, counts within the fixed tables of codec_setup_info whose sizes are regenerated from the source, floor-1 class/post tables within VIF_*, codeword lengths within marker[33], value books have dim>=1, quant list sizes) — C02_setup_wf, C02_table_sizes, C02_floor1_tables, C02_valuebook_has_dim; mode numbers always index inside mode_param[64] (C02_mode_index); every header/packet call returns a documented code (C02_headerin_codes, C02_packet_codes); a refused header never installs a set-up (C02_reject_keeps_state); the dim=0 lattice search diverges (F1 regression, C02_lookup1_dim0_diverges). All model functions are total. Tied to the C by stream c02: type-directed valid set-ups, a boundary stream (every field at 0/max/half/±1, cut at every field), random bytes, header permutations, init twice, random and structured packets, trackonly/restart/halfrate/clear twice — all return codes, the complete parse dump, window flags and sample counts compared with the model, everything under ASan+UBSan. Found and fixed F13 (double init after a failed init -> division by zero).",
+   note="PARTIAL where it must be: floor/residue/codebook *packet* decoding, the C's pointer arithmetic, heap and stack use are exercised by sanitizer runs only (testing, not proof); the lattice search correctness for dim>=1 is validated by the dump comparison (quant list sizes), not yet proved. libogg's bit reader is modelled and validated by this stream only. Time/heap budgets: total functions with explicit fuel in the model; measured, not proved, on the C.",
+   tech="Lean 4 proof-carrying parser model (facts established by each check are kernel-checked) + differential correspondence under sanitizers"),
 }
 
 NA_REASON = "not yet built in this round: model/theorems for this property are not in the tree yet (see DESIGN.md §8 for the plan)"
